@@ -64,8 +64,12 @@ func New(property string) *Recorder {
 	}
 }
 
-func (r *Recorder) SetRule(rule string)        { r.mu.Lock(); r.rule = rule; r.mu.Unlock() }
-func (r *Recorder) Assume(a ...string)         { r.mu.Lock(); r.assumptions = append(r.assumptions, a...); r.mu.Unlock() }
+func (r *Recorder) SetRule(rule string) { r.mu.Lock(); r.rule = rule; r.mu.Unlock() }
+func (r *Recorder) Assume(a ...string) {
+	r.mu.Lock()
+	r.assumptions = append(r.assumptions, a...)
+	r.mu.Unlock()
+}
 func (r *Recorder) Extra(k string, v interface{}) { r.mu.Lock(); r.extra[k] = v; r.mu.Unlock() }
 
 func hashOf(s string) uint64 {
@@ -261,13 +265,15 @@ func Scale(q, t int) int {
 // ---- known findings -------------------------------------------------------------------------
 
 type Finding struct {
-	Status    string          `json:"status"` // "known" | "fixed"
-	Property  string          `json:"property"`
-	ID        string          `json:"id"`
-	What      string          `json:"what"`
-	Signature string          `json:"signature"`
-	Witness   json.RawMessage `json:"witness,omitempty"`
-	Commit    string          `json:"commit,omitempty"`
+	Status    string `json:"status"` // "known" | "fixed"
+	Property  string `json:"property"`
+	ID        string `json:"id"`
+	What      string `json:"what"`
+	Signature string `json:"signature"`
+	// Signatures lists further signatures of the same root cause (same repair removes them).
+	Signatures []string        `json:"signatures,omitempty"`
+	Witness    json.RawMessage `json:"witness,omitempty"`
+	Commit     string          `json:"commit,omitempty"`
 }
 
 // LoadKnown returns the known (not fixed) findings of a property from $VERIF_KNOWN.
@@ -310,4 +316,16 @@ func LoadReplay() (*Violation, error) {
 		return nil, err
 	}
 	return &v, nil
+}
+
+// Hash exposes the recorder's string hash (for canonical forms of large values).
+func Hash(s string) uint64 { return hashOf(s) }
+
+// AllSignatures returns Signature plus Signatures.
+func (f Finding) AllSignatures() []string {
+	out := []string{}
+	if f.Signature != "" {
+		out = append(out, f.Signature)
+	}
+	return append(out, f.Signatures...)
 }
